@@ -25,8 +25,8 @@ class TC:
             self.link = b.link_foamlib()
             self.lib = '-lfoamlib'
 
-    def aldor(self, args, cwd, timeout=120, env=None, stdin=None, mem_mb=None):
-        return run(self.b.base() + self.flags + list(args), cwd=cwd, timeout=timeout, env=env, stdin=stdin, merge=True, mem_mb=mem_mb)
+    def aldor(self, args, cwd, timeout=120, env=None, stdin=None, mem_mb=None, norand=True):
+        return run(self.b.base() + self.flags + list(args), cwd=cwd, timeout=timeout, env=env, stdin=stdin, merge=True, mem_mb=mem_mb, norand=norand)
 
     # -- interpreter -------------------------------------------------------------------------
     def interp(self, src, q=('-Q1',), cwd=None, timeout=120, env=None, extra=()):
@@ -55,8 +55,8 @@ class TC:
             return None, r2
         return os.path.join(cwd, base + '.exe'), r2
 
-    def runexe(self, exe, cwd=None, timeout=60, env=None, stdin=None):
-        return run([exe], cwd=cwd or os.path.dirname(exe), timeout=timeout, env=env, stdin=stdin, merge=True)
+    def runexe(self, exe, cwd=None, timeout=60, env=None, stdin=None, norand=True):
+        return run([exe], cwd=cwd or os.path.dirname(exe), timeout=timeout, env=env, stdin=stdin, merge=True, norand=norand)
 
     # -- Java route ----------------------------------------------------------------------------
     def java(self, src, q=('-Q1',), cwd=None, timeout=300):
